@@ -58,8 +58,14 @@ def concretise(cell, tid, rng):
         qx = [rng.choice([-1, 1]) * rng.uniform(0.01, 0.3) for _ in range(n)]
         qy = [rng.choice([-1, 1]) * rng.uniform(0.01, 0.3) for _ in range(n)]
         qa = [math.hypot(x, y) for x, y in zip(qx, qy)]
-        return {"tid": tid, "op": "ladder2d", "cell": cell, "qx": qx, "qy": qy,
-                "dqx": [float(cell["relr"]) * x for x in qa], "dqy": [float(cell["relt"]) * x for x in qa],
+        dqx = [float(cell["relr"]) * x for x in qa]
+        dqy = [float(cell["relt"]) * x for x in qa]
+        # per-pixel widths: on two of three ladders one pixel has no tangential, another no radial width (the average
+        # is then over a line along, resp. across, the q direction)
+        if tid % 3 != 2:
+            dqy[tid % n] = 0.0
+            dqx[(tid + 2) % n] = 0.0
+        return {"tid": tid, "op": "ladder2d", "cell": cell, "qx": qx, "qy": qy, "dqx": dqx, "dqy": dqy,
                 "A": [float(x) for x in cell["A"]], "c0": float(cell["c0"]),
                 "accs": ["low", "med", "high", "xhigh"]}
     q0 = rng.choice([0.01, 0.05, 0.1, 0.3])
